@@ -59,6 +59,7 @@ func canon(m proto.Message) []byte {
 type oracleTables struct {
 	decompress, decode, encode, compress map[string]L // key -> [] | [value]
 	order                                [4][]string
+	tooBig                               []string
 }
 
 func newTables() *oracleTables {
@@ -72,7 +73,7 @@ func (t *oracleTables) add(which int, m map[string]L, k []byte, v L) {
 	t.order[which] = append(t.order[which], string(k))
 }
 func (t *oracleTables) value() L {
-	out := make(L, 4)
+	out := make(L, 5)
 	for i, m := range []map[string]L{t.decompress, t.decode, t.encode, t.compress} {
 		l := L{}
 		for _, k := range t.order[i] {
@@ -80,6 +81,11 @@ func (t *oracleTables) value() L {
 		}
 		out[i] = l
 	}
+	big := L{}
+	for _, k := range t.tooBig {
+		big = append(big, Bb([]byte(k)))
+	}
+	out[4] = big
 	return out
 }
 
@@ -93,6 +99,9 @@ func (t *oracleTables) learn(payload []byte, newMsg func() proto.Message, client
 		t.add(0, t.decompress, payload, L{Bb(un)})
 		plainCandidates = append(plainCandidates, un)
 	} else {
+		if _, ok := t.decompress[string(payload)]; !ok && err == nil {
+			t.tooBig = append(t.tooBig, string(payload))
+		}
 		t.add(0, t.decompress, payload, L{})
 	}
 	t.add(3, t.compress, payload, L{Bb(gzipBytes(payload))})
